@@ -537,7 +537,18 @@ func fdPick(p *Term, vals []*Term) *Term {
 }
 
 // fdApplyN applies f pointwise when every operand is concrete or finite-domain (and at least one is not concrete).
-func fdApplyN(f func(args []*Term) *Term, xs ...*Term) (*Term, bool) {
+func fdApplyN(f func(args []*Term) *Term, xs ...*Term) (res *Term, ok bool) {
+	// a row that is infeasible under the path condition may make the operator panic (division by a
+	// zero that cannot occur): give up the pointwise application and let the caller go symbolic
+	defer func() {
+		if r := recover(); r != nil {
+			if _, isGo := r.(goPanic); isGo {
+				res, ok = nil, false
+				return
+			}
+			panic(r)
+		}
+	}()
 	any := false
 	for _, x := range xs {
 		if !isFD(x) {
